@@ -363,8 +363,33 @@ func (e *dbEnv) settle() {
 		time.Sleep(250 * time.Microsecond)
 	}
 
+	// The count did not come back. On a loaded machine the stragglers may simply not have been scheduled yet: as long as a
+	// goroutine is still inside the database code (its stack says so) the store is not quiescent and must not be closed.
+	for i := 0; i < 4000 && dbStragglers(); i++ {
+		time.Sleep(5 * time.Millisecond)
+	}
+
 	e.baseGoroutines = runtime.NumGoroutine()
 	e.SettleTimeouts++
+}
+
+// dbStragglers: some goroutine other than the caller is running code of the center or of the leveldb storage.
+func dbStragglers() bool {
+	buf := make([]byte, 1<<20)
+	buf = buf[:runtime.Stack(buf, true)]
+
+	stacks := bytes.Split(buf, []byte("\n\n"))
+	if len(stacks) < 2 {
+		return false
+	}
+
+	for _, s := range stacks[1:] { // the first one is the calling goroutine
+		if bytes.Contains(s, []byte("isaac/database.(*Center).dig")) || bytes.Contains(s, []byte("mitum/storage/leveldb.(*")) {
+			return true
+		}
+	}
+
+	return false
 }
 
 func (e *dbEnv) Close() {
